@@ -93,7 +93,19 @@ Errors(u) == {
    "sorted({\"b\": 1, \"a\": 2, \"c\": 3}, 1, 2)",
    "try(func() { error({\"b\": 1, \"a\": 2, \"c\": 3}) })",
    "1 + {\"b\": 1, \"a\": 2, \"c\": 3}",
-   "{\"b\": 1, \"a\": 2, \"c\": 3}[{\"y\": 1, \"x\": 2}]"
+   "{\"b\": 1, \"a\": 2, \"c\": 3}[{\"y\": 1, \"x\": 2}]",
+   \* near misses: a failed lookup next to SEVERAL entries that resemble the missing name (case, blanks, one letter) -
+   \* whatever the report says about them must be the same in every evaluation
+   Cat(<<"m := {\"content-type\": 1, \"Content-Type\": 2, \"CONTENT-type\": 3, \" content-type \": 4, \"content-typ\": 5}", NL, "m[\"CONTENT-TYPE\"]">>),
+   Cat(<<"m := {\"content-type\": 1, \"Content-Type\": 2, \"CONTENT-type\": 3, \" content-type \": 4, \"content-typ\": 5}", NL, "try(func() { m[\"content-Type\"] }, func(e) { string(e) })">>),
+   Cat(<<"m := {\"alpha\": 1, \"Alpha\": 2, \"ALPHA\": 3, \"alphA\": 4}", NL, "m.aLpha">>),
+   Cat(<<"m := {\"alpha\": 1, \"Alpha\": 2, \"ALPHA\": 3, \"alphA\": 4}", NL, "delete(m, \"aLPHA\")", NL, "m[\"aLPHA\"] += 1">>),
+   "import math\nmath.Abs(1) + math.SQRT(2)",
+   "import strings\nstrings.To_Upper(\"a\")",
+   Cat(<<"value1 := 1", NL, "valueA := 2", NL, "Value := 3", NL, "vAlue := 4", NL, "print(value)">>),
+   Cat(<<"l := [1]", NL, "l.appnd(2)">>),
+   Cat(<<"s := \"x\"", NL, "s.To_upper()">>),
+   "from math import Abs, aBs, abS"
  }
 
 \* ---------------------------------------------------------------- order
